@@ -18,6 +18,44 @@ macro_rules! debug {
     }
 }
 
+/// Verification hook (only under `--cfg lalrpop_verif`): one event per driver
+/// step, recorded per thread when a test harness has switched recording on.
+#[cfg(all(lalrpop_verif, feature = "std"))]
+pub mod verif {
+    use alloc::string::String;
+    use alloc::vec::Vec;
+    use core::cell::RefCell;
+
+    std::thread_local! {
+        static LOG: RefCell<Option<Vec<String>>> = const { RefCell::new(None) };
+    }
+
+    /// Start recording on this thread (drops anything recorded before).
+    pub fn start() {
+        LOG.with(|l| *l.borrow_mut() = Some(Vec::new()));
+    }
+
+    /// Stop recording and return the events.
+    pub fn take() -> Vec<String> {
+        LOG.with(|l| l.borrow_mut().take().unwrap_or_default())
+    }
+
+    pub(crate) fn emit(f: impl FnOnce() -> String) {
+        LOG.with(|l| {
+            if let Some(v) = l.borrow_mut().as_mut() {
+                v.push(f());
+            }
+        });
+    }
+}
+
+macro_rules! verif_event {
+    ($($args:tt)*) => {
+        #[cfg(all(lalrpop_verif, feature = "std"))]
+        crate::state_machine::verif::emit(|| alloc::format!($($args)*));
+    }
+}
+
 pub trait ParserDefinition: Sized {
     /// Represents a location in the input text. If you are using the
     /// default tokenizer, this will be a `usize`.
@@ -262,9 +300,20 @@ where
                     let symbol = self.definition.token_to_symbol(token_index, lookahead.1);
                     self.states.push(target_state);
                     self.symbols.push((lookahead.0, symbol, lookahead.2));
+                    verif_event!(
+                        "{{\"e\":\"shift\",\"to\":{:?},\"depth\":{}}}",
+                        target_state,
+                        self.states.len()
+                    );
                     continue 'shift;
                 } else if let Some(reduce_index) = action.as_reduce() {
                     debug!("\\ reduce to: {:?}", reduce_index);
+                    verif_event!(
+                        "{{\"e\":\"reduce\",\"r\":{:?},\"top\":{:?},\"depth\":{}}}",
+                        reduce_index,
+                        top_state,
+                        self.states.len()
+                    );
 
                     if let Some(r) = self.reduce(reduce_index, Some(&lookahead.0)) {
                         return match r {
@@ -296,6 +345,12 @@ where
             let top_state = self.top_state();
             let action = self.definition.eof_action(top_state);
             if let Some(reduce_index) = action.as_reduce() {
+                verif_event!(
+                    "{{\"e\":\"eofreduce\",\"r\":{:?},\"top\":{:?},\"depth\":{}}}",
+                    reduce_index,
+                    top_state,
+                    self.states.len()
+                );
                 if let Some(result) =
                     self.definition
                         .reduce(reduce_index, None, &mut self.states, &mut self.symbols)
@@ -324,6 +379,7 @@ where
 
         if !self.definition.uses_error_recovery() {
             debug!("\\ error -- no error recovery!");
+            verif_event!("{{\"e\":\"fail\"}}");
 
             return NextToken::Done(Err(
                 self.unrecognized_token_error(opt_lookahead, &self.states)
@@ -331,6 +387,7 @@ where
         }
 
         let error = self.unrecognized_token_error(opt_lookahead.clone(), &self.states);
+        verif_event!("{{\"e\":\"rec_start\"}}");
 
         let mut dropped_tokens = vec![];
 
@@ -342,6 +399,12 @@ where
             let action = self.definition.error_action(state);
             if let Some(reduce_index) = action.as_reduce() {
                 debug!("\\\\ reducing: {:?}", reduce_index);
+                verif_event!(
+                    "{{\"e\":\"rec_pre\",\"r\":{:?},\"top\":{:?},\"depth\":{}}}",
+                    reduce_index,
+                    state,
+                    self.states.len()
+                );
 
                 if let Some(result) =
                     self.reduce(reduce_index, opt_lookahead.as_ref().map(|l| &l.0))
@@ -396,6 +459,7 @@ where
                 // propagate back the dropped tokens, though).
                 None => {
                     debug!("\\\\\\ no more lookahead, report error");
+                    verif_event!("{{\"e\":\"rec_giveup\"}}");
                     return NextToken::Done(Err(error));
                 }
 
@@ -406,6 +470,7 @@ where
                     debug!("\\\\\\ dropping lookahead token");
 
                     dropped_tokens.push(lookahead);
+                    verif_event!("{{\"e\":\"rec_drop\"}}");
                     match self.next_token() {
                         NextToken::FoundToken(next_lookahead, next_token_index) => {
                             opt_lookahead = Some(next_lookahead);
@@ -506,6 +571,12 @@ where
         let error_action = self.definition.error_action(recover_state);
         let error_state = error_action.as_shift().unwrap();
         self.states.push(error_state);
+        verif_event!(
+            "{{\"e\":\"rec_push\",\"at\":{},\"to\":{:?},\"depth\":{}}}",
+            top,
+            error_state,
+            self.states.len()
+        );
         let recovery = self.definition.error_recovery_symbol(crate::ErrorRecovery {
             error,
             dropped_tokens,
@@ -621,6 +692,27 @@ where
     /// token index. Classification can fail with an error. If there
     /// are no more tokens, signal EOF.
     fn next_token(&mut self) -> NextToken<D> {
+        #[cfg(all(lalrpop_verif, feature = "std"))]
+        let token = {
+            let item = self.tokens.next();
+            match item {
+                Some(Ok(_)) => {}
+                Some(Err(_)) => {
+                    verif_event!("{{\"e\":\"tokerr\"}}");
+                }
+                None => {
+                    verif_event!("{{\"e\":\"eof\"}}");
+                }
+            }
+            item
+        };
+        #[cfg(all(lalrpop_verif, feature = "std"))]
+        let token = match token {
+            Some(Ok(v)) => v,
+            Some(Err(e)) => return NextToken::Done(Err(e)),
+            None => return NextToken::Eof,
+        };
+        #[cfg(not(all(lalrpop_verif, feature = "std")))]
         let token = match self.tokens.next() {
             Some(Ok(v)) => v,
             Some(Err(e)) => return NextToken::Done(Err(e)),
@@ -638,6 +730,7 @@ where
             }
         };
 
+        verif_event!("{{\"e\":\"tok\",\"idx\":{:?}}}", token_index);
         NextToken::FoundToken(token, token_index)
     }
 }
